@@ -78,6 +78,10 @@ class CompletionDisposition(enum.Enum):
     CANCELED = 1
 
 
+class _TransactionAbandoned(Exception):
+    """Used internally to stop the state machine after the transaction was abandoned."""
+
+
 @dataclass
 class _DestFileParams(_FileParamsBase):
     file_name: Path
@@ -420,14 +424,18 @@ class DestHandler:
         """
         if packet is not None:
             self._check_inserted_packet(packet)
-        if self.states.state == CfdpState.IDLE:
-            self.__idle_fsm(packet)
-            # Calling the FSM immediately would lead to an exception, user must send any PDUs which
-            # might have been generated (e.g. NAK PDUs to re-request metadata) first.
-            if self.packets_ready:
-                return FsmResult(self.states)
-        if self.states.state == CfdpState.BUSY:
-            self.__non_idle_fsm(packet)
+        try:
+            if self.states.state == CfdpState.IDLE:
+                self.__idle_fsm(packet)
+                # Calling the FSM immediately would lead to an exception, user must send any PDUs
+                # which might have been generated (e.g. NAK PDUs to re-request metadata) first.
+                if self.packets_ready:
+                    return FsmResult(self.states)
+            if self.states.state == CfdpState.BUSY:
+                self.__non_idle_fsm(packet)
+        except _TransactionAbandoned:
+            # The fault handler dropped the transaction. There is nothing left to do for it.
+            pass
         return FsmResult(self.states)
 
     def _check_inserted_packet(self, packet: GenericPduPacket) -> None:
@@ -1212,6 +1220,9 @@ class DestHandler:
         elif fh == FaultHandlerCode.ABANDON_TRANSACTION:
             self._abandon_transaction()
         self.cfg.default_fault_handlers.report_fault(transaction_id, cond, progress)
+        if fh == FaultHandlerCode.ABANDON_TRANSACTION:
+            # The handler was reset, the current state machine call must not continue.
+            raise _TransactionAbandoned
         return fh
 
     def _notice_of_cancellation(self, condition_code: ConditionCode) -> None:
